@@ -4,6 +4,8 @@ from __future__ import annotations
 
 import math
 
+import warnings
+
 import numpy as np
 
 from vf import gen, monitors, pan, ref
@@ -178,14 +180,20 @@ def run(case, ctx):
             ctx.count("evaluations")
             det = {"scenario": name, "handler": h, "std": std, "pred": pred, "ref": refa, "cfg": cfg}
             feats = {"scenario": name, "input": it}
+            # every fifth case runs in a process that treats floating point errors and warnings as errors
+            # (np.seterr(all="raise"), python -W error): a zero-TP evaluation must complete there as well
+            strict = (i + RES.index(std)) % 5 == 3 and name != "decision_rejects_all"  # (there, metrics of real pairs are computed: 0/0 in clDice is the library's documented NaN)
             try:
-                with np.errstate(all="ignore"):
+                with np.errstate(all="raise" if strict else "ignore"), warnings.catch_warnings():
+                    if strict:
+                        warnings.simplefilter("error")
+                        ctx.count("C08.strict_floating_point_and_warning_settings")
                     out = pan.evaluate(ev, pred, refa)
+                    res = out[next(iter(out))][0]
+                    r = pan.read_result(res, metrics)
             except Exception as e:  # noqa: BLE001
-                ctx.viol("evaluate_raised", dict(det, exc=repr(e)[:300]), features=dict(feats, exc=type(e).__name__))
+                ctx.viol("evaluate_raised", dict(det, exc=repr(e)[:300], strict_settings=strict), features=dict(feats, exc=type(e).__name__, strict_settings=strict))
                 continue
-            res = out[next(iter(out))][0]
-            r = pan.read_result(res, metrics)
             pi, ri = ref.input_instances(pred, refa, it, cfg["backend"])
             n_pred, n_ref = len(pi), len(ri)
             assert ref.scenario(n_pred, n_ref) == sc
